@@ -114,6 +114,9 @@ def run_translator(pid):
         res["failures"].append({"obligation": "translate", "detail": out[-1500:]})
         res["obligations"] = 1
         return res
+    # functions outside the translator's subset are left out of Generated.v: only the Tie files about them break
+    untr = [l.strip() for l in out.splitlines() if "UNTRANSLATED" in l]
+    res["untranslated"] = untr
     qflags = ["-Q", os.path.join(COQ, "theories"), "Ice", "-Q", os.path.join(COQ, "proofs"), "IceProofs", "-Q", gdir, "IceGen"]
     rc, out = sh(["coqc"] + qflags + ["Generated.v"], cwd=gdir, timeout=600)
     if rc != 0:
@@ -133,7 +136,7 @@ def run_translator(pid):
         res["obligations"] += nobl
         rc, out = sh(["coqc"] + qflags + [name], cwd=gdir, timeout=900)
         if rc != 0:
-            res["failures"].append({"obligation": name, "detail": out[-1500:]})
+            res["failures"].append({"obligation": name, "detail": out[-1500:] + ("\n" + "\n".join(untr) if untr else "")})
         else:
             res["discharged"] += nobl
     return res
